@@ -35,6 +35,7 @@ const prelude = `(set-option :produce-models true)
 
 // collect symbols
 type symtab struct {
+	ifaceLits map[int64]bool // interface ids used in implements(_, id)
 	dynLits map[int64]bool // type ids compared with a dyntype(...) term
 	vars    map[string]*Sort
 	ufs     map[string]bool
@@ -107,6 +108,12 @@ func (st *symtab) walk(e *Engine, t *Term, seen map[*Term]bool, bound map[string
 			}
 		}
 	}
+	if t.Op == "implements" && len(t.Args) == 2 && t.Args[1].IsIntLit() {
+		if st.ifaceLits == nil {
+			st.ifaceLits = map[int64]bool{}
+		}
+		st.ifaceLits[t.Args[1].Val.Int64()] = true
+	}
 	if t.Op == "at" {
 		st.ufs["at"] = true
 	}
@@ -171,6 +178,11 @@ func (e *Engine) header(st *symtab) string {
 			if _, ok := st.vars["top0"]; ok {
 				fmt.Fprintf(&sb, "(assert (forall ((x Int)) (! (= (> (%s x) top0) (> x top0)) :pattern ((%s x)))))\n", id, id)
 			}
+		}
+	}
+	if st.ufs["implements"] {
+		for _, f := range implementsFacts(st.dynLits, st.ifaceLits) {
+			sb.WriteString(f + "\n")
 		}
 	}
 	if st.ufs["implErr"] {
